@@ -52,7 +52,8 @@ def cases(tier: str) -> List[Dict[str, Any]]:
             continue
         n = len(h)
         idx = sum(ord(c) for c in str(h)) % 3
-        seconds = (0, 1, 2) if (n <= 2 and tier == "thorough") else (idx,)
+        # thorough: all three second assets for the shortest histories only (the full product, 280 000 report runs, is three times the budget)
+        seconds = (0, 1, 2) if (n <= 1 and tier == "thorough") else (idx,)
         for second in seconds:
             s2 = D.specs_for(D.SECOND[second], "b")
             dates = D.event_dates([specs, s2 or []])
@@ -69,14 +70,14 @@ def cases(tier: str) -> List[Dict[str, Any]]:
                     wins = [wins[1 + k % (len(wins) - 1)]]
             for w in wins:
                 sch = "fifo" if tier == "quick" else ("fifo", "hifo")[len(out) % 2]
-                orders = ("reverse", "chrono") if (tier == "thorough" or n == 3) else (("reverse", "chrono")[len(out) % 2],)
+                orders = ("reverse", "chrono") if ((tier == "thorough" and n == 1) or n == 3) else (("reverse", "chrono")[len(out) % 2],)
                 for ro in orders:
                     c = D.make_case(h, second, sch, w, row_order=ro)
                     if c:
                         out.append(c)
     # every timestamp written at -05:00 / +09:00 around New Year (own year != UTC year): the Summary lines are per OWN year and link to the first
     # detail row of that year
-    for h in D.histories(2 if tier == "quick" else 3):
+    for h in D.histories(2):
         idx = sum(ord(c) for c in str(h)) % 3
         for tz in (-300, 540):
             s1 = D.specs_for(h, "a", tz=tz, new_year=True)
@@ -88,7 +89,7 @@ def cases(tier: str) -> List[Dict[str, Any]]:
                 if c:
                     out.append(c)
     # the data of the 9 inputs bundled with RP2, every row given a unique id
-    out += D.bundled_cases(["rp2_full_report"], methods=("fifo",) if tier == "quick" else ("fifo", "hifo"), mode="few" if tier == "quick" else "all")
+    out += D.bundled_cases(["rp2_full_report"], methods=("fifo",) if tier == "quick" else ("fifo", "hifo"), mode="few")
     return out
 
 
